@@ -1328,9 +1328,13 @@ fn check_nonzero(value: u64, tag: &'static str) -> Result<NonZeroU64, Error> {
 }
 
 fn checked_total_weight(total: u64, weight: NonZeroU64) -> Result<u64, Error> {
-    total
-        .checked_add(weight.get())
-        .ok_or_else(|| Error::deserial("malformed data: total centroid weight overflows u64"))
+    // weights are signed 64-bit in the Java/C++ format; staying below leaves room for the weight added by later updates
+    match total.checked_add(weight.get()) {
+        Some(sum) if sum <= i64::MAX as u64 => Ok(sum),
+        _ => Err(Error::deserial(
+            "malformed data: total centroid weight overflows i64",
+        )),
+    }
 }
 
 /// Generates cluster sizes proportional to `q*(1-q)`.
